@@ -45,6 +45,11 @@ def run(prog, tier):
     shared += borrow(prog, tier, "C04", {"hmc-reflect-order"}, "wall-reflection-reverses-momentum",
                      "the bounded leapfrog must multiply the momentum by the +/-1 factors of the position fold, after the fold: otherwise "
                      "running the trajectory backwards from its end point does not retrace it")
+    # the energy whose change the accept test looks at is the one the trajectory conserves: potential plus the kinetic energy of the
+    # chain's own mass (kinetic_energy, decided below) - the clause C07 shares with C01, decided there
+    shared += [o for o in borrow(prog, tier, "C01", {"accept-form"}, "accept-test-uses-the-hamiltonian",
+                                 "the acceptance ratio must be exp(-(H_end - H_start)) with the kinetic term of the chain's own mass matrix")
+               if "HamiltonianChain" in o.construct]
     anf.reset()
     obs, info = [], []
     obs.extend(shared)
@@ -175,6 +180,22 @@ def _splitting(prog, ci, c, fn, unroll):
                 ev.append(("R", node.lineno, ""))
             elif isinstance(node, ast.Assign) and any(isinstance(x, ast.Name) and x.id in (t, r) for tg in node.targets for x in ast.walk(tg)):
                 ev.append(("X", node.lineno, U(node)))
+            elif isinstance(node, ast.AugAssign) and any(isinstance(x, ast.Name) and x.id in (t, r) for x in ast.walk(node.target)):
+                ev.append(("X", node.lineno, U(node)))           # `r[:] *= c`: a write through a view of the state
+            elif isinstance(node, ast.Expr) and isinstance(node.value, ast.Call):
+                # a call made for its effect on the state: out=<state>, an in-place method of the state, a function that writes its
+                # first argument
+                cl = node.value
+                outs = [x.id for k_ in cl.keywords if k_.arg == "out" for x in ast.walk(k_.value) if isinstance(x, ast.Name)]
+                recv = cl.func.value if isinstance(cl.func, ast.Attribute) else None
+                while isinstance(recv, (ast.Subscript, ast.Attribute)):
+                    recv = recv.value
+                inplace = isinstance(cl.func, ast.Attribute) and cl.func.attr in ("clip", "fill", "sort", "resize", "put", "itemset", "round", "partition") \
+                    and isinstance(recv, ast.Name) and recv.id in (t, r) and (cl.func.attr not in ("clip", "round") or outs)
+                first = U(cl.func).split(".")[-1] in ("copyto", "put", "place", "putmask", "fill_diagonal", "shuffle") and cl.args \
+                    and any(isinstance(x, ast.Name) and x.id in (t, r) for x in ast.walk(cl.args[0]))
+                if any(o_ in (t, r) for o_ in outs) or inplace or first:
+                    ev.append(("X", node.lineno, U(node)))
         except Unsupported as e:
             ev.append(("X", node.lineno, str(e)))
         return ev
@@ -271,7 +292,7 @@ def _fd_denominator(c, fd):
             # ... and a SMALL multiple of the coordinate's scale on every arm: a difference quotient over a step of order one is not a
             # derivative (`c * |x| if x != 0 else 1.0` parses as (c|x|) if .. else 1.0)
             if not _small_step(d.value, h):
-                problems.append(f"`{U(d)}`: the step is not (a literal factor of at most 1e-3) x (a scale) on every arm of its definition")
+                problems.append(f"`{U(d)}`: the step is not (a literal factor between 1e-9 and 1e-3) x (a scale) on every arm of its definition")
         # numerator's probe moved by the same h in the same coordinate
         probes = [n for n in ast.walk(fd) if isinstance(n, ast.AugAssign) and isinstance(n.op, ast.Add)
                   and isinstance(n.target, ast.Subscript) and U(n.value) == h]
@@ -386,7 +407,7 @@ def _small_step(expr, h):
     if isinstance(expr, ast.IfExp):
         return _small_step(expr.body, h) and _small_step(expr.orelse, h)
     if isinstance(expr, ast.Constant) and isinstance(expr.value, (int, float)) and not isinstance(expr.value, bool):
-        return 0 < abs(expr.value) <= 1e-3
+        return 1e-9 <= abs(expr.value) <= 1e-3          # below ~1e-9 of the scale the probe no longer differs from the point in double precision
     if isinstance(expr, ast.BinOp) and isinstance(expr.op, ast.Mult):
         return _small_step(expr.left, h) or _small_step(expr.right, h)
     if isinstance(expr, ast.BinOp) and isinstance(expr.op, ast.Div):
